@@ -99,3 +99,40 @@ def block_numpy():
         if k == "numpy" or k.startswith("numpy."):
             del sys.modules[k]
     sys.meta_path.insert(0, _Block())
+
+
+class StepLimit(Exception):
+    """raised inside library code when a bounded-progress monitor sees too many executed lines"""
+
+
+class step_bound:
+    """Bounded-progress monitor (a *logical* bound, not a wall-clock one): counts LINE events of the given
+    code objects with sys.monitoring and raises StepLimit inside the library once `limit` lines were
+    executed without the block finishing.  Restates 'the call terminates' as 'terminates within N steps'."""
+    _tool = None
+
+    def __init__(self, codes, limit):
+        self.codes, self.limit, self.n = list(codes), limit, 0
+
+    def __enter__(self):
+        mon = sys.monitoring
+        if step_bound._tool is None:
+            step_bound._tool = mon.PROFILER_ID
+            mon.use_tool_id(step_bound._tool, "vf-step-bound")
+        tool = step_bound._tool
+
+        def on_line(code, line):
+            self.n += 1
+            if self.n > self.limit:
+                raise StepLimit("more than %d lines executed in %s" % (self.limit, code.co_name))
+        mon.register_callback(tool, mon.events.LINE, on_line)
+        for c in self.codes:
+            mon.set_local_events(tool, c, mon.events.LINE)
+        return self
+
+    def __exit__(self, *a):
+        mon = sys.monitoring
+        for c in self.codes:
+            mon.set_local_events(step_bound._tool, c, 0)
+        mon.register_callback(step_bound._tool, mon.events.LINE, None)
+        return False
